@@ -245,7 +245,10 @@ def finish(prop, tier, recorders, t0, level, explanation, assumptions, trusted_b
         "seed": seed,
         "level": level,
         "coverage": cov,
-        "assumptions": assumptions,
+        "assumptions": list(assumptions) + [
+            "`debug_assert!` is analysed as absent: the facts come from a development build, and what hangs below cfg!(debug_assertions) is removed from every body before the rules run (a build without debug assertions, cargo's release profile, does not contain it); arithmetic overflow checks are kept",
+            "a `const NAME: <integer> = <literal>;` stands for its literal",
+        ],
         "wall_s": round(time.time() - t0, 3),
         "violations": len(new_violations),
     }
